@@ -52,6 +52,49 @@ def limits_of(wf: Any) -> dict[str, int]:
     return {n: f._step_config.num_workers for n, f in wf._get_steps().items()}
 
 
+def make_resume_action(e: Any, state: dict[str, Any], make_wf: Callable[[], Any]) -> Callable[[], None]:
+    """Returns the environment action "serialize the context, hard-stop the run, resume it on a fresh workflow
+    instance".  ``state`` holds hd / consumer / wf and is updated in place."""
+    h = e.h
+
+    def do_resume() -> None:
+        hd = state["hd"]
+        if hd.is_done():
+            return
+        snap = json.loads(json.dumps(hd.ctx.to_dict()))
+        hd._external_adapter.abort()  # hard-stop the original run
+        state["consumer"].cancel()
+        e.loop.drain()
+        # the process "dies" here: nothing of the original run may survive (abort() alone does not
+        # reach worker tasks started inside the pending wait_for_next_task call)
+        import asyncio as _aio
+
+        for _ in range(3):
+            left = [t for t in _aio.all_tasks(e.loop) if not t.done()]
+            if not left:
+                break
+            for t in left:
+                t.cancel()
+            e.loop.drain()
+        h.gates.clear()
+        for lst in h.live.values():
+            lst.clear()
+        h.restart_marks.append(len(h.published))
+        wf2 = make_wf()
+        h.stream_done = False
+        h.stream_error = None
+        h.stream = []
+        state["snap"] = snap
+        state["resumed"] = True
+        state["wf"] = wf2
+        h.workflow = wf2
+        state["n_resumes"] = state.get("n_resumes", 0) + 1
+        state["hd"] = wf2.run(ctx=Context.from_dict(wf2, snap), run_id=f"r{state['n_resumes'] + 1}")
+        state["consumer"] = e.consume_stream(state["hd"])
+
+    return do_resume
+
+
 def run_engine(ex: Execution, spec: Spec, oracle: Oracle) -> tuple[Any, list[Any]]:
     cfg = RunConfig(pair_release=spec.pair, time_depth=spec.time_depth, pair_time=spec.pair_time)
     if oracle.on_quiescent:
@@ -77,41 +120,7 @@ def run_engine(ex: Execution, spec: Spec, oracle: Oracle) -> tuple[Any, list[Any
             for sc in spec.scripts(state):
                 e.add_script(sc)
         if spec.resume:
-            def do_resume() -> None:
-                hd = state["hd"]
-                if hd.is_done():
-                    return
-                snap = json.loads(json.dumps(hd.ctx.to_dict()))
-                hd._external_adapter.abort()  # hard-stop the original run
-                state["consumer"].cancel()
-                e.loop.drain()
-                # the process "dies" here: nothing of the original run may survive (abort() alone does not
-                # reach worker tasks started inside the pending wait_for_next_task call)
-                import asyncio as _aio
-
-                for _ in range(3):
-                    left = [t for t in _aio.all_tasks(e.loop) if not t.done()]
-                    if not left:
-                        break
-                    for t in left:
-                        t.cancel()
-                    e.loop.drain()
-                h.gates.clear()
-                for lst in h.live.values():
-                    lst.clear()
-                h.restart_marks.append(len(h.published))
-                wf2 = cls(runtime=MonRuntime(BasicRuntime()), **wkw)
-                h.stream_done = False
-                h.stream_error = None
-                h.stream = []
-                state["snap"] = snap
-                state["resumed"] = True
-                state["wf"] = wf2
-                h.workflow = wf2
-                state["n_resumes"] = state.get("n_resumes", 0) + 1
-                state["hd"] = wf2.run(ctx=Context.from_dict(wf2, snap), run_id=f"r{state['n_resumes'] + 1}")
-                state["consumer"] = e.consume_stream(state["hd"])
-
+            do_resume = make_resume_action(e, state, lambda: cls(runtime=MonRuntime(BasicRuntime()), **wkw))
             e.add_script([Action(f"snapshot+resume#{i + 1}" if spec.resume_count > 1 else "snapshot+resume", do_resume)
                           for i in range(spec.resume_count)])
         cfg.stop_when = lambda hh: state["hd"].is_done() and hh.stream_done
